@@ -94,13 +94,19 @@ func vpC14_O1() {
 
 	d := vpBig("d")
 	vpAssume(d.Sign() != 0)
-	dev := vpChoose("deviation", 7)
+	dev := vpChoose("deviation", 8)
 	in := respReq.UserChallengeInput
 	switch dev {
 	case 1:
-		in[0].Value = new(big.Int).Add(in[0].Value, d)
+		// (the commitment hash covers magnitudes - gabi's big.Int marshals without sign - so a
+		// deviation means another magnitude)
+		nv := new(big.Int).Add(in[0].Value, d)
+		vpAssume(nv.CmpAbs(in[0].Value) != 0)
+		in[0].Value = nv
 	case 2:
-		in[0].Commitment = new(big.Int).Add(in[0].Commitment, d)
+		nc := new(big.Int).Add(in[0].Commitment, d)
+		vpAssume(nc.CmpAbs(in[0].Commitment) != 0)
+		in[0].Commitment = nc
 	case 3:
 		vpAssume(n == 2)
 		in[0], in[1] = in[1], in[0]
@@ -112,6 +118,10 @@ func vpC14_O1() {
 		in[0].KeyID = &unknown
 	case 6:
 		in[0].KeyID = nil // pretend the first key does not take part
+	case 7: // the first entry is re-labelled with another key the server knows
+		vpAssume(keys[pks[1].Issuer] != nil)
+		otherID := pks[1].Issuer
+		in[0].KeyID = &otherID
 	}
 	proofP, err := KeyshareResponse(kssSecret, kssRandomizer, commReq, respReq, keys)
 	if dev != 0 {
